@@ -10,6 +10,10 @@
 //!   fortran <dims> <n>         fortran_order_to_row_major(0..n)    -> permuted index list
 //!   npzname <hex> / npzkey <hex>   npz_file_name / key mapping of npz::read
 //!   utf8 <hex>                 std::str::from_utf8(..).is_ok()
+//!   stenc <dt> <dims> <strides> <hex storage>   safetensors to_le_bytes of a strided view -> `contig=<0|1> data=<hex>`
+//!   stdec <dt> <hex>           safetensors from_le_bytes (via read of a hand-built file)  -> `vals=<hex>`
+//!   stdtype <NAME>             data_type_from_safetensors         -> `ok <dt>` | `err:unsupported` | `err:other`
+//!   tfd <dims> <n>             Tensor::<u8>::try_from_data(dims, n bytes).is_ok()
 //!   # ...                      container round trips / mutations (oracle only, not compared)
 //!
 //! Property oracles evaluated on the implementation's own output (-> PROPFAIL):
@@ -1034,6 +1038,280 @@ fn container_round_trip(out: &mut Out, rng: &mut Rng) {
     }
 }
 
+// ---------------------------------------------------------------- safetensors wrapper logic
+fn contiguous_strides(shape: &[usize]) -> Vec<usize> {
+    let mut st = vec![0usize; shape.len()];
+    let mut p = 1usize;
+    for d in (0..shape.len()).rev() {
+        st[d] = p;
+        p *= shape[d];
+    }
+    st
+}
+
+/// `to_le_bytes` on an explicitly strided view: which branch is taken and the bytes produced.
+fn case_stenc<T: Elt>(out: &mut Out, rng: &mut Rng, dt: DataType)
+where
+    for<'a> TensorView<'a, T>: Into<View<'a>>,
+{
+    let rank = rng.usize_below(5);
+    let shape: Vec<usize> = (0..rank).map(|_| *rng.pick(&[0usize, 1, 1, 2, 2, 3, 4])).collect();
+    let mut strides = contiguous_strides(&shape);
+    let class = rng.below(7);
+    match class {
+        0 => {}
+        1 => {
+            // size-1 dims may carry any stride and stay contiguous
+            for d in 0..rank {
+                if shape[d] == 1 {
+                    strides[d] = rng.usize_below(9);
+                }
+            }
+        }
+        2 => {
+            // permuted strides (transposed view of a contiguous tensor)
+            let mut perm: Vec<usize> = (0..rank).collect();
+            rng.shuffle(&mut perm);
+            let base = contiguous_strides(&perm.iter().map(|&i| shape[i]).collect::<Vec<_>>());
+            for (k, &i) in perm.iter().enumerate() {
+                strides[i] = base[k];
+            }
+        }
+        3 => {
+            for s in strides.iter_mut() {
+                *s *= 1 + rng.usize_below(3); // padded / stepped
+            }
+        }
+        4 => {
+            for s in strides.iter_mut() {
+                if rng.chance(1, 2) {
+                    *s = 0; // broadcast
+                }
+            }
+        }
+        5 => {
+            for s in strides.iter_mut() {
+                *s = rng.usize_below(7);
+            }
+        }
+        _ => {
+            // contiguous except one perturbed stride
+            if rank > 0 {
+                let d = rng.usize_below(rank);
+                strides[d] += 1;
+            }
+        }
+    }
+    let mdl = if shape.iter().any(|&d| d == 0) {
+        0
+    } else {
+        shape.iter().zip(&strides).map(|(&d, &s)| (d - 1) * s).sum::<usize>() + 1
+    };
+    let slack = if rng.chance(1, 3) { rng.usize_below(4) } else { 0 };
+    let storage: Vec<T> = (0..mdl + slack).map(|_| T::from_bits(rand_bits(rng))).collect();
+    let view = match TensorView::<T>::from_slice_with_strides(&shape[..], &storage, &strides[..]) {
+        Ok(v) => v,
+        Err(_) => return,
+    };
+    let storage_bytes: Vec<u8> = storage.iter().flat_map(|x| x.le()).collect();
+    let req = format!("stenc {} {} {} {}", dt_name(dt), dims(&shape), dims(&strides), hex(&storage_bytes));
+    let contig = view.data().is_some();
+    let expect = logical_bytes(&view);
+    let mut buf = Vec::new();
+    let (r, big) = guarded(|| safetensors::write(&mut buf, [("t", view.clone())]));
+    let mut fail: Option<String> = None;
+    let ans = match r {
+        Ok(Ok(())) => {
+            let hl = u64::from_le_bytes(buf[..8].try_into().unwrap()) as usize;
+            let data = &buf[8 + hl..];
+            if data != &expect[..] {
+                fail = Some(format!("safetensors data section {} differs from the view's logical elements {}", hex(data), hex(&expect)));
+            }
+            match safetensors::read(&buf[..]) {
+                Ok(m) => match m.get("t") {
+                    Some(v) => {
+                        let (rdt, rshape, rbytes, bad) = value_canon(v);
+                        if rdt != dt || rshape != shape || rbytes != expect || bad.is_some() {
+                            fail = Some("safetensors round trip differs".into());
+                        }
+                    }
+                    None => fail = Some("tensor missing after round trip".into()),
+                },
+                Err(e) => fail = Some(format!("read of written safetensors failed: {e}")),
+            }
+            format!("contig={} data={}", contig as u8, hex(data))
+        }
+        Ok(Err(e)) => {
+            fail = Some(format!("safetensors write failed: {e}"));
+            "err".into()
+        }
+        Err(m) => {
+            fail = Some(format!("safetensors write panicked: {m}"));
+            "panic".into()
+        }
+    };
+    if big {
+        fail = Some("safetensors write requested an allocation > 256 MiB".into());
+    }
+    out.bucket(&format!("stenc:{}", if contig { "fast-path" } else { "iter-path" }));
+    out.bucket(&format!("stenc-class{class}"));
+    out.case(&req, &ans, fail.as_deref(), rank >= 2 && !expect.is_empty());
+}
+
+fn st_file(dtype: &str, shape: &[usize], data: &[u8]) -> Vec<u8> {
+    let json = format!(
+        "{{\"t\":{{\"dtype\":\"{dtype}\",\"shape\":[{}],\"data_offsets\":[0,{}]}}}}",
+        hcommon::join(shape.iter(), ","),
+        data.len()
+    );
+    let mut f = (json.len() as u64).to_le_bytes().to_vec();
+    f.extend_from_slice(json.as_bytes());
+    f.extend_from_slice(data);
+    f
+}
+fn st_name(d: DataType) -> &'static str {
+    match d {
+        DataType::Bool => "BOOL",
+        DataType::Int8 => "I8",
+        DataType::Int16 => "I16",
+        DataType::Int32 => "I32",
+        DataType::Int64 => "I64",
+        DataType::UInt8 => "U8",
+        DataType::UInt16 => "U16",
+        DataType::UInt32 => "U32",
+        DataType::UInt64 => "U64",
+        DataType::Float32 => "F32",
+        _ => "F64",
+    }
+}
+
+/// `from_le_bytes` on arbitrary data bytes (bool bytes other than 0/1 included).
+fn case_stdec(out: &mut Out, rng: &mut Rng, dt: DataType) {
+    let n = rng.usize_below(7);
+    let mut data = rand_bytes(rng, n * dt_size(dt));
+    if rng.chance(1, 3) {
+        for b in data.iter_mut() {
+            *b = *rng.pick(&[0u8, 1, 2, 0x80, 0xff]);
+        }
+    }
+    let req = format!("stdec {} {}", dt_name(dt), hex(&data));
+    let file = st_file(st_name(dt), &[n], &data);
+    let (r, _) = guarded(|| safetensors::read(&file[..]));
+    let mut fail = None;
+    let ans = match r {
+        Ok(Ok(m)) => match m.get("t") {
+            Some(v) => {
+                let (rdt, rshape, rbytes, _) = value_canon(v);
+                if rdt != dt || rshape != [n] {
+                    fail = Some("dtype/shape differ".to_string());
+                }
+                format!("vals={}", hex(&rbytes))
+            }
+            None => "missing".into(),
+        },
+        Ok(Err(e)) => {
+            fail = Some(format!("well-formed safetensors file rejected: {e}"));
+            "err".into()
+        }
+        Err(m) => {
+            fail = Some(format!("safetensors reader panicked: {m}"));
+            "panic".into()
+        }
+    };
+    out.bucket(&format!("stdec:{}", dt_name(dt)));
+    out.case(&req, &ans, fail.as_deref(), n > 0);
+}
+
+fn case_stdtype(out: &mut Out, name: &str) {
+    let req = format!("stdtype {name}");
+    let file = st_file(name, &[0], &[]);
+    let (r, _) = guarded(|| safetensors::read(&file[..]));
+    let mut fail = None;
+    let ans = match r {
+        Ok(Ok(m)) => match m.get("t") {
+            Some(v) => format!("ok {}", dt_name(v.dtype())),
+            None => "missing".into(),
+        },
+        Ok(Err(e)) => {
+            if e.to_string().starts_with("unsupported safetensors dtype") {
+                "err:unsupported".into()
+            } else {
+                "err:other".to_string()
+            }
+        }
+        Err(m) => {
+            fail = Some(format!("safetensors reader panicked: {m}"));
+            "panic".into()
+        }
+    };
+    out.bucket("stdtype");
+    out.case(&req, &ans, fail.as_deref(), true);
+}
+
+/// `Tensor::try_from_data` acceptance (rten-tensor), used by both readers.
+fn case_tfd(out: &mut Out, rng: &mut Rng) {
+    let rank = rng.usize_below(5);
+    let shape: Vec<usize> = (0..rank)
+        .map(|_| match rng.below(6) {
+            0 => 0,
+            1 => huge_dim(rng),
+            _ => rng.usize_below(4),
+        })
+        .collect();
+    let true_len: u128 = shape.iter().map(|&d| d as u128).product();
+    let n = if true_len <= 64 && rng.chance(2, 3) { true_len as usize } else { rng.usize_below(8) };
+    let req = format!("tfd {} {}", dims(&shape), n);
+    let (r, _) = guarded(|| Tensor::<u8>::try_from_data(&shape[..], vec![0u8; n]).is_ok());
+    let mut fail = None;
+    let ans = match r {
+        Ok(b) => (b as u8).to_string(),
+        Err(m) => {
+            fail = Some(format!("try_from_data panicked: {m}"));
+            "panic".into()
+        }
+    };
+    out.bucket(&format!("tfd:{ans}"));
+    out.case(&req, &ans, fail.as_deref(), rank >= 2);
+}
+
+/// Two names that map to the same archive entry.
+fn case_npz_duplicate(out: &mut Out, first: &str, second: &str, expect_dup: bool) {
+    let a = Tensor::<i32>::from_data(&[2], vec![1, 2]);
+    let b = Tensor::<i32>::from_data(&[3], vec![3, 4, 5]);
+    let req = format!("# npz-duplicate {} {}", hex(first.as_bytes()), hex(second.as_bytes()));
+    let mut cur = Cursor::new(Vec::new());
+    let (r, _) = guarded(|| npz::write(&mut cur, [(first, a.view()), (second, b.view())]));
+    let mut fail = None;
+    let ans = match r {
+        Ok(Err(e)) => {
+            if !expect_dup || !e.to_string().contains("Duplicate filename") {
+                fail = Some(format!("unexpected npz::write error: {e}"));
+            }
+            format!("write-err {}", e.to_string().replace(' ', "_"))
+        }
+        Ok(Ok(())) => {
+            // stated outcome: duplicate entry names are refused; accepting them would lose a tensor
+            if expect_dup {
+                fail = Some("npz::write accepted two names for one archive entry".to_string());
+            } else {
+                cur.set_position(0);
+                match npz::read(&mut cur) {
+                    Ok(m) if m.len() == 2 => {}
+                    _ => fail = Some("two distinct entries were not both read back".to_string()),
+                }
+            }
+            "write-ok".into()
+        }
+        Err(m) => {
+            fail = Some(format!("npz::write panicked: {m}"));
+            "panic".into()
+        }
+    };
+    out.bucket("npz:duplicate");
+    out.note(&format!("npz-duplicate {first} / {second}: {ans}"));
+    out.case(&req, &ans, fail.as_deref(), true);
+}
+
 /// Hand-built safetensors files whose JSON headers are adversarial.
 fn st_adversarial(out: &mut Out, rng: &mut Rng) {
     let dts = ["F32", "I64", "U8", "BOOL", "F16", "BF16", "F8_E4M3", "F4", "I32", "U64", "C64", "XX"];
@@ -1355,6 +1633,29 @@ fn run(args: &Args) {
     }
     for s in ["\u{e9}", "\u{800}", "\u{ffff}", "\u{10000}", "\u{10ffff}", "\u{d7ff}", "\u{e000}", "a\u{2003}b"] {
         case_utf8(&mut out, s.as_bytes());
+    }
+
+    // (J) safetensors wrapper logic: to_le_bytes branches, from_le_bytes, dtype map, try_from_data
+    for _ in 0..600 * scale {
+        for dt in DTS {
+            dispatch!(dt, T => case_stenc::<T>(&mut out, &mut rng, dt));
+        }
+    }
+    for _ in 0..200 * scale {
+        for dt in DTS {
+            case_stdec(&mut out, &mut rng, dt);
+        }
+    }
+    for name in ["BOOL", "F4", "F6_E2M3", "F6_E3M2", "U8", "I8", "F8_E5M2", "F8_E4M3", "F8_E8M0", "F8_E4M3FNUZ",
+        "F8_E5M2FNUZ", "I16", "U16", "F16", "BF16", "I32", "U32", "F32", "C64", "F64", "I64", "U64", "XX"] {
+        case_stdtype(&mut out, name);
+    }
+    for _ in 0..3000 * scale {
+        case_tfd(&mut out, &mut rng);
+    }
+    for (x, y, dup) in [("a", "a.npy", true), ("a.npy", "a", true), ("a", "a", true), ("d.npy", "d", true),
+        ("d.npy", "d.npy.npy", false), ("a", "b", false)] {
+        case_npz_duplicate(&mut out, x, y, dup);
     }
 
     // (I) containers
